@@ -50,13 +50,14 @@ Fixpoint dedup (l : list obsT) : list obsT :=
   | _ => l
   end.
 
-Definition crash_states (s0 : state) (o : op) : list state :=
-  let p := plan s0 o in map (crash s0 p) (seq 0 (S (length p))).
+(* the interrupted call is a PROGRAM: one operation, or several performed one after another by the same process *)
+Definition crash_states (s0 : state) (os : list op) : list state :=
+  let p := plan_seq s0 os in map (crash s0 p) (seq 0 (S (length p))).
 
 Record case := mkCase {
   c_pre : list op;                                    (* fault-free pre-history from the initial repository *)
   c_pre_obs : obsT;
-  c_op : op;                                          (* the interrupted operation *)
+  c_op : list op;                                     (* the interrupted call: a program of one or more operations *)
   c_seq : list obsT;                                  (* the observations at crash points 0..n, consecutive repeats removed *)
   c_points : list (obsT * list (list op * obsT))      (* per crash point: observation, and observation after each follow-up *)
 }.
@@ -109,5 +110,5 @@ Definition step_code (t : step) : list N :=
   | FsRename _ _ => [31]
   | FsDelete _ => [32]
   end.
-Definition skeleton (pre : list op) (o : op) : list N :=
-  let s0 := run init pre in flat_map step_code (plan s0 o).
+Definition skeleton (pre : list op) (os : list op) : list N :=
+  let s0 := run init pre in flat_map step_code (plan_seq s0 os).
